@@ -1448,7 +1448,7 @@ func c11Run(ctx *core.Ctx, env *c11Env, d interface {
 				fmt.Sprintf("a MultiRowGroup with a child whose Rows() differs from its column chunks: Rows() of the multi row group (and WriteRowGroup with both fast paths disabled) reads the child's chunks, the segmented fast path writes the child through its own Rows(): %s", desc),
 				detail(map[string]any{"copied_chunks": out.copyN, "reencoded_row_groups": out.reencN}))
 		} else if !same {
-			ctx.Fail("L1", "rows-differ "+sig+" "+pathSig, "WriteRowGroup stored other rows than Rows() yields: "+desc,
+			ctx.Fail("L1", "rows-differ "+sig0+" "+pathSig, "WriteRowGroup stored other rows than Rows() yields: "+desc,
 				detail(map[string]any{"copied_chunks": out.copyN, "reencoded_row_groups": out.reencN}))
 		}
 		// independent expectation (reference shredder) for the kinds whose Go rows are known
@@ -1484,7 +1484,7 @@ func c11Run(ctx *core.Ctx, env *c11Env, d interface {
 		}
 		if known && nrows > 0 && parquet.EqualNodes(c.entry.Schema, c.schema) {
 			if col, i, desc := firstDiff(sh.Cols, outCols); col != -2 {
-				ctx.Fail("L1", "rows-differ-from-source "+sig+" "+pathSig, fmt.Sprintf("the output does not hold the source rows: column %d entry %d: %s", col, i, desc),
+				ctx.Fail("L1", "rows-differ-from-source "+sig0+" "+pathSig, fmt.Sprintf("the output does not hold the source rows: column %d entry %d: %s", col, i, desc),
 					detail(map[string]any{"copied_chunks": out.copyN, "reencoded_row_groups": out.reencN}))
 			}
 		}
